@@ -234,13 +234,27 @@ func (s *GroupTransactSession) failed() bool {
 // it will likely leave the client in an invalid state. Canceling should only
 // be done if you want to shut down.
 func (s *GroupTransactSession) End(ctx context.Context, commit TransactionEndTry) (committed bool, err error) {
-	defer func() {
-		s.failMu.Lock()
+	// The revoked / lost flags are reset for the next transaction. On the
+	// main path this is done below while we hold failMu, before we end
+	// the transaction: a revoke or lost callback that arrives while we
+	// are ending blocks on failMu and must mark the NEXT transaction as
+	// failed once we release it. Resetting after releasing the lock
+	// would erase that mark, and the next End would commit records of
+	// partitions we no longer own.
+	var didReset bool
+	resetFailed := func() {
 		s.revoked = false
 		s.revokedCh = make(chan struct{})
 		s.lost = false
 		s.lostCh = make(chan struct{})
-		s.failMu.Unlock()
+		didReset = true
+	}
+	defer func() {
+		if !didReset { // early returns before we took the lock below
+			s.failMu.Lock()
+			resetFailed()
+			s.failMu.Unlock()
+		}
 	}()
 
 	switch commit {
@@ -462,6 +476,7 @@ func (s *GroupTransactSession) End(ctx context.Context, commit TransactionEndTry
 		"can_try_commit", tryCommit,
 		"will_try_commit", willTryCommit,
 	)
+	resetFailed() // we hold failMu until we return; see the top of this function
 
 	// We have a few potential retryable errors from EndTransaction.
 	// OperationNotAttempted will be returned at most once.
